@@ -27,6 +27,10 @@ import (
 // PricedFns are the functions with a base cost and a per-byte price.
 var PricedFns = []string{"SaveKeyValue", "ESDTNFTCreate", "ESDTNFTAddURI", "ESDTNFTUpdateAttributes", "ESDTNFTTransfer", "MultiESDTNFTTransfer"}
 
+// BaseFns are further functions executed alongside (price = base cost only, n = 0): the property lets ALL built-in
+// functions run concurrently with each other and with repricing.
+var BaseFns = []string{"ESDTTransfer", "ESDTLocalMint", "ESDTLocalBurn", "ESDTNFTAddQuantity", "ESDTNFTBurn"}
+
 // FlaggedFns are the functions with an activation flag moved by EpochConfirmed.
 var FlaggedFns = []string{"ESDTNFTAddURI", "ESDTNFTUpdateAttributes", "MultiESDTNFTTransfer"}
 
@@ -119,6 +123,7 @@ type GasEnv struct {
 	Calib    vmcommon.BuiltInFunctionContainer // never repriced: schedule 1
 	Tmpl     []*world.Account                  // template account of every executor slot (shard 0)
 	Tok      [][]byte                          // each slot's NFT collection
+	Fung     [][]byte                          // each slot's fungible token
 	Dest     []byte                            // a user on shard 1
 	CurK     int                               // schedule in force between rounds
 	CurFlag  bool                              // activation flags between rounds
@@ -192,10 +197,23 @@ func NewGasEnv() (*GasEnv, error) {
 		if err != nil {
 			return nil, err
 		}
-		in := input(world.ESDTSC, a.Addr, "ESDTSetRole", tok, []byte("ESDTRoleNFTCreate"), []byte("ESDTRoleNFTAddQuantity"), []byte("ESDTRoleNFTAddURI"), []byte("ESDTRoleNFTUpdateAttributes"))
+		in := input(world.ESDTSC, a.Addr, "ESDTSetRole", tok, []byte("ESDTRoleNFTCreate"), []byte("ESDTRoleNFTAddQuantity"), []byte("ESDTRoleNFTAddURI"), []byte("ESDTRoleNFTUpdateAttributes"), []byte("ESDTRoleNFTBurn"))
 		if _, err := setRole.ProcessBuiltinFunction(nil, a, in); err != nil {
 			return nil, fmt.Errorf("setup ESDTSetRole: %v", err)
 		}
+		fung := []byte(fmt.Sprintf("FNG%02d-d4e5f6", s))
+		in = input(world.ESDTSC, a.Addr, "ESDTSetRole", fung, []byte("ESDTRoleLocalMint"), []byte("ESDTRoleLocalBurn"))
+		if _, err := setRole.ProcessBuiltinFunction(nil, a, in); err != nil {
+			return nil, fmt.Errorf("setup ESDTSetRole: %v", err)
+		}
+		mint, err := calib.Get("ESDTLocalMint")
+		if err != nil {
+			return nil, err
+		}
+		if _, err := mint.ProcessBuiltinFunction(a, a, input(a.Addr, a.Addr, "ESDTLocalMint", fung, nb(1000000000))); err != nil {
+			return nil, fmt.Errorf("setup ESDTLocalMint: %v", err)
+		}
+		e.Fung = append(e.Fung, fung)
 		create, err := calib.Get("ESDTNFTCreate")
 		if err != nil {
 			return nil, err
@@ -214,7 +232,8 @@ func NewGasEnv() (*GasEnv, error) {
 
 // gasCall is one planned execution.
 type gasCall struct {
-	Fn   string
+	Fn     string
+	DstNil bool // the destination account lives on another shard
 	In   func() *vmcommon.ContractCallInput // fresh input object for every execution
 	M, N int                                // measured at schedule 1
 }
@@ -231,8 +250,23 @@ func (e *GasEnv) planCall(r *rand.Rand, slot int) *gasCall {
 	a := e.Tmpl[slot].Addr
 	tok := e.Tok[slot]
 	fn := PricedFns[r.Intn(len(PricedFns))]
+	if r.Intn(100) < 28 {
+		fn = BaseFns[r.Intn(len(BaseFns))]
+	}
+	fung := e.Fung[slot]
+	dstNil := false
 	var mk func() *vmcommon.ContractCallInput
 	switch fn {
+	case "ESDTTransfer":
+		args := [][]byte{fung, nb(uint64(1 + r.Intn(5)))}
+		dstNil = true
+		mk = func() *vmcommon.ContractCallInput { return input(a, e.Dest, fn, args...) }
+	case "ESDTLocalMint", "ESDTLocalBurn":
+		args := [][]byte{fung, nb(uint64(1 + r.Intn(5)))}
+		mk = func() *vmcommon.ContractCallInput { return input(a, a, fn, args...) }
+	case "ESDTNFTAddQuantity", "ESDTNFTBurn":
+		args := [][]byte{tok, nb(uint64(1 + r.Intn(2))), nb(uint64(1 + r.Intn(3)))}
+		mk = func() *vmcommon.ContractCallInput { return input(a, a, fn, args...) }
 	case "SaveKeyValue":
 		var kv [][]byte
 		for i := 1 + r.Intn(3); i > 0; i-- {
@@ -265,7 +299,7 @@ func (e *GasEnv) planCall(r *rand.Rand, slot int) *gasCall {
 		}
 		mk = func() *vmcommon.ContractCallInput { return input(a, a, fn, args...) }
 	}
-	return &gasCall{Fn: fn, In: mk}
+	return &gasCall{Fn: fn, In: mk, DstNil: dstNil}
 }
 
 type execRes struct {
@@ -279,7 +313,11 @@ func execute(c vmcommon.BuiltInFunctionContainer, call *gasCall, acc *world.Acco
 		return execRes{-1, err.Error()}
 	}
 	in := call.In()
-	out, err := fn.ProcessBuiltinFunction(acc, acc, in)
+	var dst vmcommon.UserAccountHandler = acc
+	if call.DstNil {
+		dst = nil
+	}
+	out, err := fn.ProcessBuiltinFunction(acc, dst, in)
 	if err != nil || out == nil || out.ReturnCode != vmcommon.Ok {
 		msg := "no output"
 		if err != nil {
@@ -306,7 +344,7 @@ func (e *GasEnv) calibrate(plans [][]*gasCall, slots []int) error {
 				return fmt.Errorf("calibration of %s failed: %s", c.Fn, res.err)
 			}
 			c.M, c.N = int(res.charge/BaseUnit), int(res.charge%BaseUnit)
-			if c.M < 1 || c.N < 1 || c.N >= 10000 {
+			if c.M < 1 || c.N >= 10000 || (c.N < 1) != isBase(c.Fn) {
 				return fmt.Errorf("calibration of %s: charge %d does not split into base and bytes", c.Fn, res.charge)
 			}
 		}
@@ -397,7 +435,7 @@ func (e *GasEnv) GasRound(r *rand.Rand, no *int) ([]*Round, error) {
 
 	var out []*Round
 	tag := fmt.Sprintf("gas execs=%d goroutines=%d reprices=%d epochs=%d", total, nexec, nrep, nep)
-	for _, fn := range PricedFns {
+	for _, fn := range append(append([]string{}, PricedFns...), BaseFns...) {
 		var sub []Op
 		has := false
 		for _, o := range ops {
@@ -430,6 +468,15 @@ func (e *GasEnv) GasRound(r *rand.Rand, no *int) ([]*Round, error) {
 		}
 	}
 	return out, nil
+}
+
+func isBase(fn string) bool {
+	for _, f := range BaseFns {
+		if f == fn {
+			return true
+		}
+	}
+	return false
 }
 
 func isFlagged(fn string) bool {
